@@ -73,4 +73,64 @@ def gen_register(tier, rng):
                                    ghosts={'cb_calls': calls, 'given': given, 'expect_calls': expect})
 
 
-GENS = {'ProxyClient.register_callback': gen_register, 'ProxyClient.callback': gen_callback}
+class _ScriptIO:
+    """a connection delivering the scripted lines, then closing"""
+    def __init__(self, lines):
+        self.lines = list(lines)
+
+    def readline(self, timeout=None):
+        from frappy.errors import CommunicationFailedError
+        from frappy.lib.asynconn import ConnectionClosed
+        if not self.lines:
+            raise ConnectionClosed('end of script')
+        return self.lines.pop(0)
+
+    def shutdown(self):
+        pass
+
+    def disconnect(self):
+        pass
+
+
+def gen_rx(tier, rng):
+    """message scripts of length 1..3 (thorough: 4) over {update, error_update, reply, changed, error_read, error_change, pong, unknown ident}
+    x {float parameter, custom string parameter, module-only shorthand} x timestamp {absent, past, 1 h in the future} x {importable,
+    not importable} values, processed by the real reader loop on a scripted connection"""
+    import time
+    from frappy.client import SecopClient
+    from frappy.datatypes import FloatRange, StringType
+    from frappy.protocol.interface import encode_msg_frame
+    known = {'m:value': ('m', 'value'), 'm:target': ('m', 'target'), 'm:_label': ('m', 'label')}
+    past, future = 1000.0, time.time() + 3600
+    def msgs(ident, good, bad):
+        out = []
+        for t in (None, past, future):
+            q = {} if t is None else {'t': t}
+            out += [('update', ident, [good, q]), ('reply', ident, [good, q]), ('error_update', ident, ['HardwareError', 'broken', q]),
+                    ('error_read', ident, ['CommunicationFailed', 'silent', q])]
+        out += [('changed', ident, [good, {'t': future}]), ('update', ident, [bad, {'t': past}]), ('error_change', ident, ['RangeError', 'x', {}])]
+        return out
+    pool = msgs('m:value', 1.5, 'x') + msgs('m:_label', 'abc', 5) + msgs('m', 2.5, None) + \
+        [('pong', 'tok', [None, {'t': past}]), ('update', 'zz:value', [1, {}]), ('changed', 'm', [3.5, {}])]
+    n_max = 3 if tier == 'quick' else 4
+    scripts = [[m] for m in pool]
+    for n in range(2, n_max + 1):
+        scripts += [[rng.choice(pool) for _ in range(n)] for _ in range(150 if tier == 'quick' else 600)]
+    for script in scripts:
+        c = SecopClient('fake://x', None)
+        c.activate = False
+        c.modules = {'m': {'parameters': {'value': {'datatype': FloatRange(0, 10)}, 'target': {'datatype': FloatRange(0, 10)},
+                                          'label': {'datatype': StringType()}}}}
+        c.internal = dict(known)
+        c.io = _ScriptIO([encode_msg_frame(*m) for m in script])
+        c._running = True
+        item_calls = []
+        c.register_callback(None, updateItem=lambda module, param, item: item_calls.append(((module, param), item)))
+        c.callbacks['unhandledMessage'][None] = [lambda *a: None]
+        c.callbacks['handleError'] = {None: [lambda *a: None]}
+        yield dict(label=' ; '.join(f'{a} {i} {d}' for a, i, d in script), self=c, args={},
+                   call=lambda c=c: c._SecopClient__rxthread(),
+                   ghosts={'script': script, 'known': known, 't_start': time.time(), 'cache_view': c.cache, 'item_calls': item_calls})
+
+
+GENS = {'SecopClient.__rxthread': gen_rx, 'ProxyClient.register_callback': gen_register, 'ProxyClient.callback': gen_callback}
